@@ -1,5 +1,6 @@
 """C09 - UTF-8 validation equals RFC 3629, incrementally and in both implementations."""
 import ast
+import re
 import os
 
 import numpy as np
@@ -206,14 +207,14 @@ def rule_python_bookkeeping(ctx):
                         t = Tiny(env, calls={"__dfa_step": step}, default_call=default)
                         r = t.run(body)
                         # specification
-                        st, pos, rej = st0, 0, False
-                        for i, tok in enumerate(chunk):
+                        st, pos, rej = st0, 0, st0 == REJ   # REJECT is final: whatever follows (also nothing: the empty chunk) is reported invalid at once
+                        for i, tok in enumerate(() if rej else chunk):
                             st = step(st, tok)
                             if st == REJ:
                                 rej, pos = True, i
                                 break
                         else:
-                            pos = n
+                            pos = 0 if rej else n
                         want = (False, False, pos, idx0 + pos) if rej else (True, st == ACC, n, idx0 + n)
                         got = tuple(r[1]) if r[0] == "return" and isinstance(r[1], (list, tuple)) else (r[0], r[1])
                         stored = (t.env.get("self._state"), t.env.get("self._index"))
@@ -450,6 +451,37 @@ def _c_bookkeeping(ctx, fname, wname, f, W, body, REJ, ACC, rel, gen):
     ok = len(fin) == 1 and gen.visit(fin[0].cond).replace(" ", "") in (f"state=={ACC}", "state==UTF8_ACCEPT") and \
         "return 0" in gen.visit(fin[0].iftrue) and fin[0].iffalse is not None and "return 1" in gen.visit(fin[0].iffalse)
     ctx.ob(f"{tag}: returns 0 on a code point boundary, 1 inside a sequence", ok, "final return mapping changed", rel)
+    # the empty chunk: the loop is not entered, the verdict is the final mapping applied to the state the validator is in -- REJECT must stay invalid
+    def final_ret(node, state):
+        for _ in range(6):
+            if isinstance(node, c_ast.Compound):
+                its = node.block_items or []
+                if len(its) != 1:
+                    return None
+                node = its[0]
+            elif isinstance(node, c_ast.If):
+                c_ = gen.visit(node.cond).replace(" ", "").replace("UTF8_ACCEPT", str(ACC)).replace("UTF8_REJECT", str(REJ))
+                mt = re.fullmatch(r"\(?state(==|!=)(\d+)\)?", c_)
+                if not mt:
+                    return None
+                hit = (state == int(mt.group(2))) == (mt.group(1) == "==")
+                node = node.iftrue if hit else node.iffalse
+                if node is None:
+                    return None
+            elif isinstance(node, c_ast.Return):
+                try:
+                    return int(gen.visit(node.expr).replace(" ", ""))
+                except ValueError:
+                    return None
+            else:
+                return None
+        return None
+    if len(fin) == 1:
+        got = {nm_: final_ret(fin[0], st_) for nm_, st_ in (("ACCEPT", ACC), ("REJECT", REJ), ("inside a code point", 2))}
+        ctx.ob(f"{tag}: an empty chunk is judged by the state the validator is in (0 on a boundary, 1 inside a code point, -1 once rejected) [3 cells]",
+               got == {"ACCEPT": 0, "REJECT": -1, "inside a code point": 1},
+               f"with no octet to read the function returns {got}: after a rejecting chunk an empty chunk is reported VALID again (whole input vs. the split "
+               f"[.., b''] disagree)", f"{rel}:{fin[0].coord.line}")
     # a call that starts in REJECT (a chunk fed after the verdict) must still report invalid, like the Python implementation does
     skips = [c for c in conj if c in (f"state!={REJ}", "state!=UTF8_REJECT")]
     if skips:
